@@ -62,6 +62,30 @@ type ufIn struct {
 	R string
 }
 
+// ufKR emits its keys BY REFERENCE (as a Folder that replays a parsed document does)
+type ufKR struct {
+	K string
+	V int
+}
+
+func (o ufKR) Fold(v structform.ExtVisitor) error {
+	if err := v.OnObjectStart(1, structform.AnyType); err != nil {
+		return err
+	}
+	if err := v.OnKeyRef([]byte(o.K)); err != nil {
+		return err
+	}
+	if err := v.OnInt(o.V); err != nil {
+		return err
+	}
+	return v.OnObjectFinished()
+}
+
+// ufS implements fmt.Stringer (an interface WITH methods) and folds as a plain struct
+type ufS struct{ N int }
+
+func (s ufS) String() string { return "ufS" }
+
 // ufR has a REGISTERED folder that emits an object (so that it can also be inlined)
 type ufR struct {
 	K string
@@ -363,6 +387,42 @@ func userPlacement(idx int, r *rng) (interface{}, interface{}) {
 			Z int
 			P *ufIn `struct:",inline"`
 		}{3, nil}, xo{{"z", 3}}
+	case 40:
+		// field names with upper-case letters outside A-Z: the default member name is the
+		// lower-cased name (strings.ToLower, not an ASCII loop)
+		return struct {
+			Ärger int
+			ΩMega string
+			NAÏVE bool
+		}{n, k, true}, xo{{"ärger", n}, {"ωmega", k}, {"naïve", true}}
+	case 41:
+		// a Folder that reports its keys by reference: plain, inlined, and inlined behind an interface
+		kr := ufKR{K: k, V: n}
+		switch r.n(3) {
+		case 0:
+			return struct {
+				A int
+				X ufKR
+			}{1, kr}, xo{{"a", 1}, {"x", xo{{k, n}}}}
+		case 1:
+			return struct {
+				A int
+				X ufKR `struct:",inline"`
+			}{1, kr}, xo{{"a", 1}, {k, n}}
+		}
+		return struct {
+			A int
+			X interface{} `struct:",inline"`
+		}{1, kr}, xo{{"a", 1}, {k, n}}
+	case 42:
+		// values behind interfaces WITH methods fold as what they hold
+		return struct {
+			M map[string]fmt.Stringer
+			S fmt.Stringer
+			E error
+			L []fmt.Stringer
+		}{map[string]fmt.Stringer{k: ufS{n}}, ufS{n + 1}, nil, []fmt.Stringer{ufS{1}, nil}},
+			xo{{"m", xo{{k, xo{{"n", n}}}}}, {"s", xo{{"n", n + 1}}}, {"e", nil}, {"l", []interface{}{xo{{"n", 1}}, nil}}}
 	case 37:
 		// inlined interface{} inside a value held by an inlined interface{}
 		return struct {
@@ -373,7 +433,7 @@ func userPlacement(idx int, r *rng) (interface{}, interface{}) {
 	panic("userPlacement")
 }
 
-const nUserPlacements = 40
+const nUserPlacements = 43
 
 // placement 20 needs the value it generated: build it here with one rng so that value and expectation agree
 func userPlacementFixed(idx int, seed uint64) (interface{}, interface{}) {
